@@ -101,6 +101,12 @@ CHECKS["C15"] = dict(
    note='''Trusted: Lean kernel + Mathlib, axioms propext/Classical.choice/Quot.sound, the compiled model driver executing the validator, the Python harness (float->Fraction, seed forcing by patching numpy.random.randint in the harness process, generators). ''' + "Argument tuples are sampled. The defect found by this check (scale computed from a local maximum) was repaired by a fix: commit (known_findings.json).",
    technique="Lean 4 proven sup-norm certificate over the continuum applied to every generated polynomial",
    design="7/C15")
+CHECKS["C16"] = dict(
+   category="translation_validation",
+   text="Proven certificates (QSP/Properties/C16.lean): validTrig_sound - acceptance implies |p(x) - scale*cos(tau x)| <= eps (resp. sin) for EVERY x in [-1,1], from the exact Taylor polynomial (remainder 2|tau|^n/n! via Complex.exp_bound') converted exactly to the Chebyshev basis (chebAt_monoToCheb); validInv_sound - acceptance implies |p(x)/scale - 1/x| <= 3 eps for every 1/kappa <= |x| <= 1, from the exact identity x g(x) - 1 + (1-x^2)^b = E(x). Each run applies them to ~60 cosine / sine / 1/x outputs in both bases, and compares the 9 erf-family generators in Chebyshev mode with an independently recomputed least-squares fit (discrete Chebyshev transform of independently evaluated targets).",
+   note='''Trusted: Lean kernel + Mathlib, standard axioms, model driver, harness. ''' + "PARTIAL: the erf-family clause (positive multiple of the least-squares fit of the documented target) is decided by an independent floating-point recomputation (scipy.special.erf, DCT formula), i.e. explored with an independent oracle, not proved; the a-priori Jacobi-Anger / Childs-Kothari-Somma bounds for all (tau, eps) at once need Bessel functions (absent from Mathlib) - accuracy is certified per instance over the continuum instead.",
+   technique="Lean 4 proven accuracy certificates over the continuum (cos/sin/1/x) + independent recomputation (erf family)",
+   design="7/C16")
 NOT_APPLICABLE = {}
 
 def main():
